@@ -29,6 +29,7 @@ func TestC14Enum(t *testing.T) {
 					continue
 				}
 				c := &SrvCase{Cfg: c0.Cfg, Script: c0.Script, End: end}
+				c.Cfg.CtxErr = idx%2 == 0 // every other case: callback errors that wrap a context error
 				o := &Outcome{}
 				var obs *SrvObs
 				rec.Journal(c)
